@@ -28,6 +28,7 @@ MCPackage(name)      == IF name \in DOMAIN MCPackages THEN MCPackages[name] ELSE
 MCScnSchema(i)       == Scn[i].sid
 MCScnMain(i)         == Scn[i].main
 MCScnOpts(i)         == Scn[i].opts
+MCScnTwin(i)         == Scn[i].twin
 
 Spec == SInit2 /\ [][SNext2]_svars2
 
